@@ -103,7 +103,7 @@ Ltac crush :=
 Lemma lower_addends_ok x y off :
   wf_addend x -> wf_addend y -> 0 <= off < 2147483648 ->
   (match x, y with AReg _ _, AReg _ _ => off = off | _, _ => True end) ->
-  eval_amode (lower_addends_to_amode x y off) = w64 (addend_val x + addend_val y + off).
+  eval_amode (lower_addends_to_amode x y off false) = w64 (addend_val x + addend_val y + off).
 Proof.
   intros Hx Hy Hoff _. unfold lower_addends_to_amode.
   destruct x as [vx sx | ox], y as [vy sy | oy]; cbn [wf_addend] in Hx, Hy.
@@ -221,6 +221,7 @@ Proof.
       - crush. }
     destruct e as [r | c m | x m | x m | sg n x m | n x m | x k m | x y m | a b m]; try (apply Hgen; assumption).
     destruct m; [| apply Hgen; assumption].
+    apply andb_prop in Hs as [Hs Hal]. apply negb_true_iff in Hal. rewrite Hal.
     apply andb_prop in Hs as [Hsa Hsb]. destruct Hz as [Hza Hzb].
     rewrite lower_addends_ok; try (apply lower_addend_wf; assumption); try lia.
     + rewrite !lower_addend_ok by assumption. cbn [ev]. rewrite w64_add_l. reflexivity.
@@ -236,7 +237,7 @@ Proof.
     destruct m; [discriminate | reflexivity]. }
   unfold lowerable, lower_panics. destruct (2147483648 <=? off); [apply H|].
   destruct e as [r | c m | x m | x m | sg n x m | n x m | x k m | x y m | a b m]; try apply H.
-  destruct m; [| apply H]. intros Hab. apply andb_prop in Hab as [Ha Hb].
+  destruct m; [| apply H]. intros Hab. apply andb_prop in Hab as [Hab _]. apply andb_prop in Hab as [Ha Hb].
   rewrite (H a Ha), (H b Hb). reflexivity.
 Qed.
 
@@ -250,8 +251,8 @@ Lemma frontend_lowerable e off : frontend_shape e = true -> lowerable off e = tr
 Proof.
   intros H. unfold lowerable. destruct (2147483648 <=? off); [apply frontend_addend_ok; exact H|].
   destruct e as [r | c m | x m | x m | sg n x m | n x m | x k m | x y m | a b m]; try (apply frontend_addend_ok; exact H).
-  destruct m; [| reflexivity]. cbn in H. apply andb_prop in H as [Ha Hb].
-  rewrite (frontend_addend_ok a Ha), (frontend_addend_ok b Hb). reflexivity.
+  destruct m; [| reflexivity]. cbn [frontend_shape] in H. apply andb_prop in H as [H Hal]. apply andb_prop in H as [Ha Hb].
+  rewrite (frontend_addend_ok a Ha), (frontend_addend_ok b Hb), Hal. reflexivity.
 Qed.
 Lemma zext_all_addend rg e : zext_all rg e -> addend_zext rg e.
 Proof.
@@ -292,3 +293,11 @@ Example amode_outside_class_refuted :
   eval_amode (lower_to_amode true rg (SX (R32 0) true) 0) <> ev rg (SX (R32 0) true) /\
   eval_amode (lower_to_amode true rg (SHL (V64 0) 4 true) 0) <> ev rg (SHL (V64 0) 4 true).
 Proof. vm_compute. split; discriminate. Qed.
+
+(* two shifted addends: the code shifts the first one's register in place; when both are shifts of one register the
+   index is read after the shift (latent: the frontend never adds two shifts). Found by the direct stream. *)
+Example amode_double_shift_same_register_refuted :
+  let rg := fun _ => 1 in
+  let e := ADD (SHL (V64 0) 3 true) (SHL (V64 0) 2 true) true in
+  eval_amode (lower_to_amode true rg e 0) = 40 /\ ev rg e = 12 /\ lowerable 0 e = false.
+Proof. vm_compute. repeat split; reflexivity. Qed.
